@@ -50,3 +50,15 @@ pub fn fix_crc(f: &mut [u8]) {
     f[n - 2] = (c >> 8) as u8;
     f[n - 1] = c as u8;
 }
+
+/// The three bytes which, appended to `prefix`, make the CRC-24Q of the whole equal `target` (feeding 24 bits X
+/// turns the register r into ((r ^ X) * x^24) mod P; the 24 shift steps are undone on the target).
+pub fn solve_tail(prefix: &[u8], target: u32) -> [u8; 3] {
+    let r = crc24q(prefix);
+    let mut y = target & 0xFF_FFFF;
+    for _ in 0..24 {
+        y = if y & 1 == 1 { ((y ^ 0x864CFB) >> 1) | 0x80_0000 } else { y >> 1 };
+    }
+    let x = r ^ y;
+    [(x >> 16) as u8, (x >> 8) as u8, x as u8]
+}
